@@ -150,11 +150,11 @@ def gen(rng, n, tier):
 # ------------------------------------------------------------------ implementation
 def filter_str(t):
     if t[0] == "not":
-        return "!(" + filter_str(t[1]) + ")"
+        return "!( " + filter_str(t[1]) + " )"
     if t[0] == "and":
-        return "(" + filter_str(t[1]) + " & " + filter_str(t[2]) + ")"
+        return "( " + filter_str(t[1]) + " & " + filter_str(t[2]) + " )"
     if t[0] == "or":
-        return "(" + filter_str(t[1]) + " | " + filter_str(t[2]) + ")"
+        return "( " + filter_str(t[1]) + " | " + filter_str(t[2]) + " )"
     return "~" + t[0]
 
 
@@ -209,7 +209,7 @@ def run_impl(case):
         with taddons.context(sa) as tctx:
             flows = [make_flow(fi) for fi in case["flows"]]
             idx = {f.id: i for i, f in enumerate(flows)}
-            prev = [None, None]
+            raw_prev, prev = [None, None], [None, None]
             for ev in case["evs"]:
                 err = False
                 stopper = ev[0] != "hook"
@@ -235,14 +235,16 @@ def run_impl(case):
                         tctx.configure(sa, **kw)
                     except exceptions.OptionsError:
                         err = True
-                cur = [read_file(paths[0], idx), read_file(paths[1], idx)]
-                if stopper:
-                    # a stop writes the set active_flows in unspecified order: canonicalise the appended segment
-                    for k in (0, 1):
-                        old = prev[k] or []
-                        if cur[k] is not None and cur[k][:len(old)] == old:
-                            cur[k] = old + sorted(cur[k][len(old):])
-                prev = cur
+                raw = [read_file(paths[0], idx), read_file(paths[1], idx)]
+                cur = list(raw)
+                # a stop writes the set active_flows in unspecified order: the segment appended by one
+                # configure/done call is reported sorted (earlier segments keep their reported order)
+                for k in (0, 1):
+                    old = raw_prev[k] or []
+                    if raw[k] is not None and raw_prev[k] is not None and raw[k][:len(old)] == old:
+                        seg = raw[k][len(old):]
+                        cur[k] = prev[k] + (sorted(seg) if stopper else seg)
+                raw_prev, prev = raw, cur
                 steps.append({"err": err, "open": sa.stream is not None,
                               "active": sorted(idx[f.id] for f in sa.active_flows),
                               "f0": cur[0], "f1": cur[1], "pm": pm,
